@@ -2,3 +2,4 @@
 import IdenaModel.Props.C13
 import IdenaModel.Props.C06
 import IdenaModel.Props.C02
+import IdenaModel.Props.C03
